@@ -48,8 +48,8 @@ def run(ctx):
         part = 0
         while True:
             tp = trace + ".%d" % part
-            rc, out, err = ctx.run_harness(exe, [plan], trace=tp, timeout=1500, env={"VERIF_STALL_MS": "1500", "VERIF_SKIP": str(skip)},
-                                           ok_codes=(0, 7))
+            rc, out, err = ctx.run_harness(exe, [plan], trace=tp, timeout=300 if q else 1500,
+                                           env={"VERIF_STALL_MS": "1500", "VERIF_SKIP": str(skip)}, ok_codes=(0, 7))
             if os.path.exists(tp):
                 with open(tp) as f, open(trace, "a") as g:
                     g.write(f.read())
